@@ -35,6 +35,7 @@ var handlerStepGen = rapid.Custom(func(t *rapid.T) sim.Step {
 // inserted before "ret".
 func genRPC06(t *rapid.T, excl *string) sim.RPC {
 	var p sim.RPC
+	readFirst := false
 	p.Unary = rapid.IntRange(0, 2).Draw(t, "shape") == 2
 	p.ReqSize = sizeGen.Draw(t, "usize")
 	if p.Unary {
@@ -59,6 +60,19 @@ func genRPC06(t *rapid.T, excl *string) sim.RPC {
 		p.Client.Steps = rapid.SliceOfN(clientStepGen, 0, 6).Draw(t, "csteps")
 		p.Handler.Steps = rapid.SliceOfN(handlerStepGen, 0, 5).Draw(t, "hsteps")
 	}
+	if !p.Unary && rapid.IntRange(0, 3).Draw(t, "halfclose_only") == 0 {
+		// the way generated client-streaming stubs end a call: half-close, read to the end, never Close. Once both
+		// sides have half-closed (or the handler failed) the stream is over all the same
+		if rapid.Bool().Draw(t, "readfirst") {
+			// a client that sends nothing, reads to the end (the handler's half-close arrives first) and only then half-closes
+			p.Client.Steps = []sim.Step{{Op: "drain"}, {Op: "closesend"}}
+			p.Handler.Steps = rapid.SliceOfN(rapid.Custom(func(t *rapid.T) sim.Step { return sim.Step{Op: "send", Size: sizeGen.Draw(t, "hsz")} }), 0, 3).Draw(t, "hsends")
+			readFirst = true
+		} else {
+			p.Client.Steps = append(p.Client.Steps, sim.Step{Op: "closesend"}, sim.Step{Op: "drain"})
+		}
+		p.NoFinalClose = true
+	}
 	// call metadata: one more packet ahead of the invoke, and one more place for a cancel to land
 	if rapid.IntRange(0, 2).Draw(t, "meta") == 0 {
 		p.Meta = [][2]string{{"k", rapid.StringMatching("[a-z]{0,6}").Draw(t, "mv")}}
@@ -73,7 +87,8 @@ func genRPC06(t *rapid.T, excl *string) sim.RPC {
 	if rapid.IntRange(0, 2).Draw(t, "hreterr") == 0 {
 		p.Handler.Steps = append(p.Handler.Steps, sim.Step{Op: "reterr"})
 	} else {
-		if pbt.Excluded("F5") {
+		if pbt.Excluded("F5") && !readFirst {
+			// (a client that sends nothing leaves nothing unread: there the handler may return at once)
 			*excl = "F5"
 			p.Handler.Steps = append(p.Handler.Steps, sim.Step{Op: "drain"})
 		}
